@@ -400,3 +400,7 @@ def run(prog, chk):
                   "releases previous content through them and keeps using the object)", primary=False, floor=4)
     if memrules.clean_helpers_reset(prog, r8) < 4:
         raise Broken("fewer than 4 frees in *_clean helpers")
+    r9 = chk.rule("R9-clean-helpers-reset-counters", "a `*_clean` helper that releases an indexed block leaves the counters bounding it "
+                  "(size, capacity of a list) at 0 on every exit: a cleaned object that is kept is an empty list", primary=False, floor=2)
+    if memrules.clean_resets_bounds(prog, r9) < 2:
+        raise Broken("no counter bounding a block released by a *_clean helper found (expected the list's size and capacity)")
